@@ -644,17 +644,65 @@ _ADD2 = {
                      "machine produce the same messages and commitments as the cut model under the simulation relation Corr "
                      "(C01view_corr_*). Tied per step and per log entry: every entry's presence, identity and four heights "
                      "and the evaluated views of the real channel equal the View model (ViewExec)."),
-            ("note", "Schedule-level refinement View -> cut model: Corr is proved for the initial state and preserved by "
-                     "sign / receive-signature / revoke; preservation by update creation/delivery and by ReceiveRevocation's "
-                     "compaction is in progress (C01view_refinement_partial until then)."),
+            ("text", "The incremental machine REFINES the cut model for all disciplined schedules, including reconnects "
+                     "(C01view_refinement, C01view_reconnect_refinement: same messages, same four commitments per party, "
+                     "same queues and LastWasRevoke flags); ProcessChanSyncMsg of the incremental machine = process_sync "
+                     "(C01view_process_sync); a restart in any reachable state rebuilds a party standing for Resync.restore "
+                     "(C01view_restore_reachable[_x], C01view_restore_heights); entry shapes (fee add = remove height, adds "
+                     "carry no remove heights) proved (C01view_entry_shapes). 32 C01view theorems, all closed."),
+            ("note", "View refinement is not proved for reconnects that fail at cut level (ErrSanity) and undisciplined "
+                     "schedules (same limits as C03), nor the failure direction 'commit_of = None implies "
+                     "fetchCommitmentView fails' (the incremental machine is stepped only when the cut model accepts)."),
             ("technique", "+ incremental-machine model with range invariant over all schedules and per-entry height "
                           "correspondence (ViewExec) + model-free predicate heights_sane")],
     "C02": [("text", "After every reload (crash observation, both restarts of every cut / write-level crash) the logs "
                      "rebuilt by restoreStateLogs - entries, list order and all four commit heights - equal those of the Coq "
-                     "model of restoreStateLogs (ViewExec codes 161-176); v_restore proved idempotent and a function of the "
-                     "channel DB only (C01view_restore_partial)."),
+                     "model of restoreStateLogs (ViewExec codes 161-176); proved: v_restore is idempotent and a function of "
+                     "the channel DB only (C01view_restore_function) and, in every reachable state incl. after reconnects, "
+                     "the restored incremental party refines Resync.restore with the range invariant re-established "
+                     "(C01view_restore_reachable[_x], C01view_restore_heights). A terminal live-resync probe checks the "
+                     "release rule on LIVE channel objects (live_release_rule)."),
             ("technique", "+ per-entry restored-height correspondence against the View model")],
 }
 for _pid, _items in _ADD2.items():
+    for _field, _txt in _items:
+        CLAIMED[_pid][_field] += " " + _txt
+
+_ADD3 = {
+    "C03": [("text", "The incremental lnwallet machine (Channel/View.v) refines the cut-level reconnect model: "
+                     "C01view_reconnect_refinement, C01view_process_sync (ProcessChanSyncMsg = process_sync: same messages "
+                     "and flag). A terminal live-resync probe exercises ChanSyncMsg/ProcessChanSyncMsg on live (not reloaded) "
+                     "channel objects under the release-rule predicate."),
+            ("technique", "+ refinement of the incremental machine to the reconnect model; live-resync probe")],
+    "C06": [("text", "Release rule also on LIVE objects: a terminal live-resync probe (live/live, live/reloaded) after a "
+                     "directed epilogue (received commit_sig not yet revoked) with predicate live_release_rule (released "
+                     "height h requires durable local height > h and h = tail - 1)."),
+            ("technique", "+ live-resync probe")],
+    "C10": [("text", "Retention / purity predicate over all 45 message types, 25 failure codes and tlv streams: a decoded "
+                     "value keeps its deep dump and its re-encoding after arbitrarily many later decodes/encodes in the same "
+                     "process, does not alias its input, and earlier encoded bytes stay unchanged (windows of 128 retained "
+                     "values, size runs, 8-goroutine stream; -race in thorough)."),
+            ("note", "Purity of the real codec (no process-wide state) is tested by the retention predicate, not proved; "
+                     "the Coq model is pure by construction."),
+            ("technique", "+ retention/aliasing predicate on retained decoded values")],
+    "C15": [("text", "Circuit keys range over the full uint64 ChanID domain (boundary classes incl. alias/zero-conf scids "
+                     ">= 2^63) and HtlcID in [0, 2^63) in every stream on both stores; predicate C15_resolution_durable: "
+                     "every resolution delivered to the link is found durable in a fresh store read (settle => stored "
+                     "settled, fail => stored canceled, held => exactly one accepted record, ResolveTime set iff resolved)."),
+            ("note", "HtlcID >= 2^63 is outside the domain: the SQL store writes int64(HtlcID) unchecked and then cannot read "
+                     "the invoice back, but lnwallet.ReceiveHTLC only accepts the next sequential id, so it is unreachable "
+                     "(observation in notes/C15.md, not a finding)."),
+            ("technique", "+ full-domain circuit keys + durable-resolution predicate")],
+    "C20": [("text", "Channel updates through BOTH entry points (gossiper, Builder.ApplyChannelUpdate), sequentially and "
+                     "for concurrent arrivals on one channel direction: C20_apply_update_authentic; "
+                     "C20_atomic_updates_keep_max (any list of updates taking the per-channel mutex in any order leaves the "
+                     "maximal timestamp and every write was strictly newer) with the non-atomic schedule refuted by witness "
+                     "(C20_nonatomic_updates_refuted). Tie: pass-through store wrapper with a write log and a commit-delay "
+                     "hook; 24 enumerated two-update interleaving scenarios per backend in every run; -race in thorough."),
+            ("note", "Concurrency: N = 2 senders per direction only; the 250 ms arrival wait affects detection only on "
+                     "broken trees."),
+            ("technique", "+ deterministic interleaving enumeration at the store boundary with a linearisable-spec theorem")],
+}
+for _pid, _items in _ADD3.items():
     for _field, _txt in _items:
         CLAIMED[_pid][_field] += " " + _txt
